@@ -1,6 +1,7 @@
 SPECIFICATION Spec
 CONSTANT D = 3
 CONSTANT Mode = "hist"
+CONSTANT OpSubset = "full"
 CONSTANT MaxLen = 99
 INVARIANT EmitHist
 CHECK_DEADLOCK FALSE
